@@ -7,7 +7,7 @@ From Verif.proofs Require Import TrackerProofs.
 Import ListNotations.
 Local Open Scope N_scope.
 
-Definition ex_cfg := mkCfg 1 true 8 8 8.
+Definition ex_cfg := mkCfg 1 true 8 8 8 true.
 Definition ex_gen : list (addr * acct) := [(1, mkAcct 100 0 0); (2, mkAcct 50 0 0)].
 Definition ex_d1 := mkDelta 0 [(1, mkAcct 101 0 0)] [((1, 10), (HSet 7, HSet 3))]
                             [([107; 1], (Some [170], None))] [(10, mkCreat true 1 0)].
@@ -53,7 +53,7 @@ Lemma ex_committed_phase :
 Proof. vm_compute. repeat split. Qed.
 
 (* ---------- the hypotheses on the history are needed ---------- *)
-Definition cfg0 := mkCfg 0 true 8 8 8.
+Definition cfg0 := mkCfg 0 true 8 8 8 true.
 
 (* a KV record whose OldData lies ("the key already had this value") is skipped by
    accountsNewRoundImpl: the answer then depends on whether the round has been flushed *)
@@ -88,3 +88,34 @@ Proof.
          (Some 7, None), (Some 7, Some 3).
   vm_compute. repeat split; discriminate.
 Qed.
+
+(* ---------- the original flushPendingWrites: a late cache write plants a stale entry ---------- *)
+(* A reader looks account 1 up (100, read from the DB at round 0) and stalls before queueing what
+   it read for the base cache.  The account changes to 200, the round is committed, the cache
+   turns over (OPrune stands for the eviction by a large working set), the reader's write lands,
+   the next block flushes it into the cache: from then on lookups answer 100. *)
+Definition late_cfg (fixed : bool) := mkCfg 0 true 4 4 4 fixed.
+Definition late_gen : list (addr * acct) := [(1, mkAcct 100 0 0)].
+Definition late_ops : list op :=
+  [OSAcct 0 1;
+   ONewBlock (mkDelta 0 [(1, mkAcct 200 0 0)] [] [] []);
+   OSchedule 1; OBegin; OCommitDB; OPostCommit;
+   OPrune 0 0 0;
+   OLand 0 0;
+   ONewBlock (mkDelta 0 [] [] [] [])].
+
+Lemma late_pending_refuted_lemma :
+  exists c gen ops rnd a v,
+    cf_fix c = false /\
+    wf_hist (genesis_world gen) (history_of ops) /\
+    snd (step (reach c gen ops) (OQAcct rnd a)) = RAcct (LOk v) /\
+    v <> ans_acct (state_at (genesis_world gen) (history_of ops) rnd) a.
+Proof.
+  exists (late_cfg false), late_gen, late_ops, 2%nat, 1, (mkAcct 100 0 0).
+  vm_compute. repeat split; discriminate.
+Qed.
+
+(* the same schedule against flushPendingWritesSince *)
+Lemma late_pending_repaired_lemma :
+  snd (step (reach (late_cfg true) late_gen late_ops) (OQAcct 2 1)) = RAcct (LOk (mkAcct 200 0 0)).
+Proof. vm_compute. reflexivity. Qed.
